@@ -186,6 +186,19 @@ def shrink(plan):
                 p = copy.deepcopy(plan)
                 del p["callers"][i]["ops"][j]
                 yield p
+    if plan.get("second_line"):
+        p = copy.deepcopy(plan)
+        del p["second_line"]
+        yield p
+        if "lose_at_us" in plan["second_line"]:
+            p = copy.deepcopy(plan)
+            del p["second_line"]["lose_at_us"]
+            yield p
+        for i in range(len(plan["second_line"]["sends"])):
+            if len(plan["second_line"]["sends"]) > 1:
+                p = copy.deepcopy(plan)
+                del p["second_line"]["sends"][i]
+                yield p
     for key in ("traffic", "faults", "subs"):
         lst = plan.get(key) or []
         for i in range(len(lst)):
@@ -239,6 +252,20 @@ def shrink(plan):
             p = copy.deepcopy(plan)
             p["knobs"][k] = simple
             yield p
+
+
+def gen_second_line(r, lose=True):
+    """Traffic for a second Tridonic gateway / driver object in the same process."""
+    sends = []
+    pool = list(range(1, 255))
+    r.shuffle(pool)
+    for _ in range(r.randrange(2, 7)):
+        sends.append([cmds.gen_cmd(r, ["query16"]), pool.pop(), r.choice([0, 0, 1000, 20000, 60000])])
+    sl = {"start_us": r.choice([0, 0, 0, 1000, 30000]), "sends": sends}
+    if lose and r.random() < 0.5:
+        sl["lose_at_us"] = r.choice([0, 10000, 20000, 35000, 60000, r.randrange(0, 200000)])
+        sl["return_after_us"] = r.choice([60000, 200000])
+    return sl
 
 
 def rng_for(seed, prop):
